@@ -113,9 +113,18 @@ var atomReg = map[string]AtomInfo{}
 // `(x == y)`; the atom's origin is registered.
 func mkLit(v ssa.Value, pos bool) Lit {
 	atom := Sig(v)
-	if bo, isB := v.(*ssa.BinOp); isB && bo.Op == token.NEQ {
-		atom = "(" + Sig(bo.X) + " == " + Sig(bo.Y) + ")"
-		pos = !pos
+	if bo, isB := v.(*ssa.BinOp); isB && (bo.Op == token.NEQ || bo.Op == token.EQL) {
+		// == is commutative: constants go right, otherwise the operands are ordered
+		x, y := Sig(bo.X), Sig(bo.Y)
+		_, xc := bo.X.(*ssa.Const)
+		_, yc := bo.Y.(*ssa.Const)
+		if (xc && !yc) || (!xc && !yc && x > y) {
+			x, y = y, x
+		}
+		atom = "(" + x + " == " + y + ")"
+		if bo.Op == token.NEQ {
+			pos = !pos
+		}
 	}
 	if _, ok := atomReg[atom]; !ok {
 		atomReg[atom] = AtomInfo{V: v, Subst: sigSubst}
@@ -919,4 +928,94 @@ func DeepInstrs(fn *ssa.Function, stop func(*ssa.Function) bool) []DeepInstr {
 	}
 	visit(fn, nil)
 	return out
+}
+
+// DeepFacts lists the dominating branch facts (error checks excluded) of block b inside the
+// function of frame fr, followed by those of every call site on the frame chain, rendered
+// with helper parameters replaced by call-site arguments.
+func DeepFacts(fr *Frame, b *ssa.BasicBlock) []string {
+	var out []string
+	WithSubst(fr.Subst(), func() {
+		for _, f := range DomConds(b) {
+			if IsErrCheck(f) {
+				continue
+			}
+			out = append(out, f.String())
+		}
+	})
+	if fr != nil {
+		out = append(out, DeepFacts(fr.Parent, fr.Site.Block())...)
+	}
+	return out
+}
+
+// SigIn renders v, a value of the function of frame fr, with helper parameters replaced by
+// the call-site arguments.
+func SigIn(fr *Frame, v ssa.Value) string {
+	s := ""
+	WithSubst(fr.Subst(), func() { s = Sig(v) })
+	return s
+}
+
+// SplitBoolValues replaces rows that return a non-constant boolean expression whose atom the
+// rule knows by two rows returning the constants (`return !x` == `if x {return false}; return true`).
+func (t *Table) SplitBoolValues(known func(atom string) bool) {
+	var out []Row
+	for _, r := range t.Rows {
+		if r.Val == nil || !strings.HasPrefix(r.Outcome, "value:") || r.Outcome == "value:true" || r.Outcome == "value:false" {
+			out = append(out, r)
+			continue
+		}
+		b, isB := r.Val.Type().Underlying().(*types.Basic)
+		if !isB || b.Info()&types.IsBoolean == 0 {
+			out = append(out, r)
+			continue
+		}
+		l := valueLit(r.Val)
+		if !known(l.Atom) {
+			out = append(out, r)
+			continue
+		}
+		rt, rf := r, r
+		rt.Cond = r.Cond.and(l)
+		rt.Outcome = "value:true"
+		rf.Cond = r.Cond.and(Lit{Atom: l.Atom, Pos: !l.Pos})
+		rf.Outcome = "value:false"
+		if len(rt.Cond) > 0 {
+			out = append(out, rt)
+		}
+		if len(rf.Cond) > 0 {
+			out = append(out, rf)
+		}
+	}
+	t.Rows = out
+}
+
+// AtomCallsUnexportedHelper: the atom tests (directly, or compared with nil) the result of a
+// statically resolved call to an unexported repository function with a body.
+func AtomCallsUnexportedHelper(atom string) bool {
+	info, ok := atomReg[atom]
+	if !ok {
+		return false
+	}
+	v := info.V
+	if info.NilOf != nil {
+		v = info.NilOf
+	} else if bo, isB := v.(*ssa.BinOp); isB && (bo.Op == token.EQL || bo.Op == token.NEQ) {
+		switch {
+		case isNilConst(bo.Y):
+			v = bo.X
+		case isNilConst(bo.X):
+			v = bo.Y
+		default:
+			return false
+		}
+	}
+	c, _ := CallOf(Origin(v))
+	cc, isCall := c.(*ssa.Call)
+	if !isCall {
+		return false
+	}
+	h := Followable(cc, nil)
+	return h != nil && !exportedFunc(h)
 }
